@@ -9,6 +9,7 @@
 #include <errno.h>
 #include <unistd.h>
 #include <fcntl.h>
+#include <sys/mman.h>
 #include "qlibc.h"
 #include "vfc.h"
 #include "ref_hash.h"
@@ -150,5 +151,18 @@ int main(int argc, char **argv) {
         vf_count("large_sizes", 1); vf_max("max_length", (long)len);
     }
     if (vf_mine(caseno)) { rng_seed(&R, VF.seed, (uint64_t)caseno); file_ranges(caseno); }
+    caseno++;
+    /* "every length": one buffer longer than 4 GiB (lengths that do not fit 32 bits); thorough tier only, mostly untouched zero pages */
+    if (vf_arg_long("huge", 0) && vf_mine(caseno)) {
+        size_t len = ((size_t)1 << 32) + 5; vf_case_begin(caseno, "huge buffer of %zu bytes (MD5)", len);
+        unsigned char *m = mmap(NULL, len + 4096, PROT_READ | PROT_WRITE, MAP_PRIVATE | MAP_ANONYMOUS | MAP_NORESERVE, -1, 0);
+        if (m == MAP_FAILED) vf_count("huge_buffer_unavailable", 1);
+        else { m[0] = 'q'; m[4] = 'L'; m[len - 1] = 'z'; m[((size_t)1 << 32) - 1] = 7;
+            unsigned char got[16], want[16]; memset(got, 0, 16);
+            vf_cpu_arm("qhashmd5", 600000); bool ok = qhashmd5(m, len, got); vf_cpu_disarm(); ref_md5(m, len, want);
+            if (!ok || memcmp(got, want, 16)) vf_viol("C18", "wrong-hash:qhashmd5:huge", "qhashmd5 of a %zu-byte buffer differs from the reference (%s)", len, vf_hex(got, 16));
+            vf_count("evaluations", 1); vf_count("huge_buffers", 1); vf_max("max_length", (long)len); vf_distinct("distinct", VF_H0 + 999331);
+            munmap(m, len + 4096); }
+    }
     return vf_finish() ? 1 : 0;
 }
